@@ -18,6 +18,31 @@ from harness.core import Case, ImplResult, Failure
 
 _PLUGIN = None
 TIME_SLACK = float(os.environ.get('VERIF_TIME_SLACK', '4'))
+CASE_LIMIT = int(os.environ.get('VERIF_CASE_LIMIT', '300'))     # seconds one case may take before it counts as "did not return"
+
+
+class CaseTimeout(Exception):
+    pass
+
+
+def _alarm(signum, frame):
+    raise CaseTimeout()
+
+
+def run_case(p, case):
+    """run one case on the real code under a time limit; a case that does not return is a finding, not a hang"""
+    import signal
+    old = signal.signal(signal.SIGALRM, _alarm)
+    signal.alarm(CASE_LIMIT)
+    try:
+        return p.run_impl(case)
+    except CaseTimeout:
+        res = ImplResult(model_in=[], outs=[], failures=[
+            {'signature': 'no-return', 'op_index': None,
+             'what': f'the implementation did not return within {CASE_LIMIT} s on this input (ops: {case.ops[:6]}…)'}], tags=['no-return'])
+        return res
+    finally:
+        signal.alarm(0); signal.signal(signal.SIGALRM, old)
 
 
 def load_plugin(pid):
@@ -47,8 +72,8 @@ def _worker(args):
         truncated = False
         for case in p.generate(rng, tier, index, nworkers):
             try:
-                res = p.run_impl(case)
-            except Exception as e:   # adapter crashed: report as harness error for this case
+                res = run_case(p, case)
+            except Exception as e:   # adapter crashed on this case
                 res = ImplResult(model_in=[], outs=[], failures=[], tags=['adapter-crash'])
                 res.crash = ''.join(traceback.format_exception_only(type(e), e))[-500:] + traceback.format_exc()[-1500:]
             out.append((case, res))
@@ -67,7 +92,13 @@ def classify(p, case, res, model_out):
     """Return list of Failure for one executed case."""
     fails = []
     if hasattr(p, 'filter_failures'):
+        n0 = len(res.failures)
         res.failures = p.filter_failures(res, model_out)
+        if len(res.failures) < n0:
+            # oracle failures the plugin set aside (e.g. the model says the history left the stated preconditions):
+            # counted, so the evidence shows how much was not judged
+            res.tags = list(res.tags) + ['oracle-failures-set-aside-by-filter'] * 1
+            res.filtered = n0 - len(res.failures)
     for f in res.failures:
         fails.append(Failure('oracle', f['signature'], f['what'], case, {'op_index': f.get('op_index')}))
     cmp = getattr(p, 'compare', lambda a, b: a == b)
@@ -92,7 +123,7 @@ def classify(p, case, res, model_out):
 
 
 def run_one(p, case):
-    res = p.run_impl(case)
+    res = run_case(p, case)
     mo = core.run_driver(p.PID, [res.model_in])[0] if res.model_in else []
     return res, mo, classify(p, case, res, mo)
 
@@ -119,6 +150,13 @@ def main(argv=None):
     # ---------------------------------------------------------------- replay
     if a.replay:
         d = json.loads(Path(a.replay).read_text())
+        if 'case' not in d:
+            # a broken proof obligation has no input to replay: re-check the obligations
+            lean = core.lean_obligations(pid, p.LEAN_MODULES, 'quick', lambda *x: None)
+            for prob in lean['problems']: print('FAILS [proof]', prob)
+            if lean['problems']:
+                print(f'VIOLATION property={pid} replay={a.replay} no-failing-input-found'); return 1
+            print('the proof obligations check on the current tree'); return 0
         case = Case.from_json(d['case'])
         res, mo, fails = run_one(p, case)
         for i, l in enumerate(res.model_in):
@@ -151,8 +189,10 @@ def main(argv=None):
         failures.append(Failure('proof', 'proof:' + slug(prob)[:60], prob))
 
     # ---------------------------------------------------------------- 2-4. correspondence + oracle
+    # the number of shares the case space is cut into is fixed (so a seed means the same cases on any machine);
+    # the number of processes working on them is bounded by the machine
     jobs = a.jobs or (16 if tier == 'thorough' else 8)
-    jobs = max(1, min(jobs, os.cpu_count() or 1))
+    procs = max(1, min(jobs, os.cpu_count() or 1))
     budget = p.budget(tier)
     seconds = budget.get('seconds', 120)
     executed = []        # (case, res)
@@ -164,7 +204,7 @@ def main(argv=None):
             pre_cases.append(c)
     for c in pre_cases:
         try:
-            executed.append((c, p.run_impl(c)))
+            executed.append((c, run_case(p, c)))
         except Exception as e:
             r = ImplResult([], [], [], ['adapter-crash']); r.crash = traceback.format_exc()[-2000:]
             executed.append((c, r))
@@ -174,8 +214,18 @@ def main(argv=None):
         r = _worker((pid, tier, seed, 0, 1, seconds))
         results = [r]
     else:
-        with ProcessPoolExecutor(max_workers=jobs) as ex:
-            results = list(ex.map(_worker, [(pid, tier, seed, i, jobs, seconds) for i in range(jobs)]))
+        hard = seconds * TIME_SLACK * max(1, -(-jobs // procs)) + 900
+        ex = ProcessPoolExecutor(max_workers=procs)
+        try:
+            results = list(ex.map(_worker, [(pid, tier, seed, i, jobs, seconds) for i in range(jobs)], timeout=hard))
+        except Exception as e:
+            for pr in list(getattr(ex, '_processes', {}).values()):
+                try: pr.kill()
+                except Exception: pass
+            ex.shutdown(wait=False, cancel_futures=True)
+            print(f'harness error: the workers did not finish within {hard:.0f} s ({type(e).__name__}); inconclusive', file=sys.stderr)
+            return 2
+        ex.shutdown()
     for r in results:
         if isinstance(r, tuple) and r and r[0] == 'worker-crash':
             print('harness error: worker crashed\n' + r[1], file=sys.stderr)
@@ -186,9 +236,16 @@ def main(argv=None):
         if getattr(r, 'crash', None):
             crashed.append((c, r.crash))
     if crashed:
-        print(f'harness error: adapter crashed on {len(crashed)} case(s); first:\n{crashed[0][1]}', file=sys.stderr)
+        # the adapter could not drive the real code on these cases.  On the unchanged tree this does not happen; after a
+        # change to thermosteam it means the implementation no longer behaves as the adapter (and the model) assume:
+        # a broken correspondence, reported like one (with the case as replay), and the other cases are still judged.
+        print(f'# adapter crashed on {len(crashed)} case(s); first:\n#   ' + crashed[0][1].strip().splitlines()[-1][:300])
         log(json.dumps(crashed[0][0].to_json())); log(crashed[0][1])
-        return 2
+        for c, tb in crashed:
+            last = tb.strip().splitlines()[-1] if tb.strip() else 'unknown'
+            failures.append(Failure('disagree', 'adapter-crash:' + slug(last.split(':')[0])[:40],
+                                    'the adapter could not run this case on the implementation: ' + last[:300], c, {}))
+        executed = [(c, r) for c, r in executed if not getattr(r, 'crash', None)]
 
     model_outs = core.run_driver(pid, [r.model_in for _, r in executed])
     hist, nontrivial, lines, disagreements, oracle_failures = {}, set(), 0, 0, 0
@@ -291,18 +348,31 @@ def main(argv=None):
         'evaluations': len(executed), 'distinct_nontrivial': len(nontrivial), 'rule': p.RULE,
         'samples': samples, 'lines': lines, 'disagreements': disagreements,
         'oracle_failures': oracle_failures, 'histogram': dict(sorted(hist.items())),
-        'lean_modules': p.LEAN_MODULES, 'exhaustive': getattr(p, 'EXHAUSTIVE', {}).get(tier, False),
+        'lean_modules': p.LEAN_MODULES,
+        'exhaustive': bool(getattr(p, 'EXHAUSTIVE', {}).get(tier, False)) and not truncated_workers,
+        'traces': sum(1 for _, r in executed if r.model_in),
     }
+    stale_known = []
+    for c, r in executed:
+        sig = c.meta.get('known') if isinstance(c.meta, dict) else None
+        if sig and not any(f.kind == 'oracle' and f.signature == sig and f.case is c for f in failures):
+            stale_known.append(sig)
+    for sig in stale_known:
+        print(f'# note: the witness of listed finding [{sig}] no longer fails with that signature on this tree '
+              f'(the entry may be stale: repaired, or re-classified)')
     nominal = budget.get('cases')
     if truncated_workers:
         print(f'# note: the time budget ({seconds}s x {TIME_SLACK:g}) cut the run short in {truncated_workers} of {jobs} '
               f'worker(s): {len(executed)} cases executed' + (f' of about {nominal} nominal' if nominal else ''))
-    extra = {'truncated_by_time_budget': bool(truncated_workers), 'nominal_cases': nominal, 'verdict_lines': printed, 'known_findings_listed': [k['signature'] for k in known],
+    extra = {'stale_known_witnesses': stale_known, 'truncated_by_time_budget': bool(truncated_workers), 'nominal_cases': nominal, 'verdict_lines': printed, 'known_findings_listed': [k['signature'] for k in known],
              'fixed_findings_listed': [k.get('commit', '') + ' ' + k.get('what', '') for k in fixed],
              'jobs': jobs}
     if hasattr(p, 'extra_evidence'): extra.update(p.extra_evidence(executed, model_outs))
+    # evidence/<id>.json describes a complete run against /repo itself: development runs (--no-lean) and runs against
+    # a modified copy (VERIF_REPO) write theirs under logs/ instead
+    official = not a.no_lean and os.environ.get('VERIF_REPO') in (None, '', str(core.DEFAULT_REPO))
     core.write_evidence(pid, tier, seed, lean, stats, p.ASSUMPTIONS, p.TRUSTED, violations,
-                        time.time() - t0, extra)
+                        time.time() - t0, extra, official=official)
     print(f'{pid} [{tier}] obligations={lean["obligations"]} discharged={lean["discharged"]} '
           f'cases={len(executed)} lines={lines} nontrivial={len(nontrivial)} disagreements={disagreements} '
           f'oracle_failures={oracle_failures} violations={violations} wall={time.time() - t0:.1f}s')
